@@ -205,10 +205,17 @@ class Helper:
         self.locals = _own_locals(fn)
 
     def bind(self, call: ast.Call, receiver: Optional[ast.AST]) -> Optional[Dict[str, ast.AST]]:
-        if not self.ok or any(isinstance(a, ast.Starred) for a in call.args) or any(k.arg is None for k in call.keywords):
+        if not self.ok or any(k.arg is None for k in call.keywords):
+            return None
+        npos = len(self.params) - len(self.fn.args.kwonlyargs)
+        if len(call.args) == 1 and isinstance(call.args[0], ast.Starred) and not call.keywords and self.vararg is None and npos == len(self.params) >= 1 \
+                and _plain_chain(call.args[0].value):
+            # f(*seq) with seq a name / attribute / subscript chain: parameter k reads seq[k]
+            seq = call.args[0].value
+            call = ast.Call(func=call.func, args=[ast.Subscript(value=copy.deepcopy(seq), slice=ast.Constant(value=k_), ctx=ast.Load()) for k_ in range(npos)], keywords=[])
+        if any(isinstance(a, ast.Starred) for a in call.args):
             return None
         m: Dict[str, ast.AST] = {}
-        npos = len(self.params) - len(self.fn.args.kwonlyargs)
         if len(call.args) > npos and self.vararg is None:
             return None
         for p, a in zip(self.params[:npos], call.args):
@@ -269,7 +276,7 @@ def _returns_ok(stmts) -> bool:
             if st.orelse or not _search_loop_ok(st.body):
                 return False
             rest = stmts[i + 1:]
-            if not _terminates(rest) or any(isinstance(n, ast.Return) for s_ in rest for n in [s_] + list(_walk_own(s_))):
+            if not _terminates(rest) or not _returns_ok(rest):
                 return False
             return True
         elif any(isinstance(n, ast.Return) for n in _walk_own(st)) and not isinstance(st, FDEFS + (ast.ClassDef,)):
@@ -322,7 +329,10 @@ def _assignify(stmts, make_result, fallthrough_none: bool) -> Optional[List[ast.
                 return new_block
 
             loop.body = conv(loop.body)
-            loop.orelse = [copy.deepcopy(x) for x in rest]
+            tail = _assignify([copy.deepcopy(x) for x in rest], make_result, fallthrough_none)
+            if tail is None:
+                return None
+            loop.orelse = tail
             out.append(loop)
             return out
         if isinstance(st, ast.If) and any(isinstance(n, ast.Return) for s in st.body + st.orelse for n in [s] + list(_walk_own(s))):
@@ -361,9 +371,15 @@ def _assignify(stmts, make_result, fallthrough_none: bool) -> Optional[List[ast.
 
 
 class Inliner:
-    def __init__(self, module_name: str, tree: ast.Module):
+    def __init__(self, module_name: str, tree: ast.Module, multiply_defined: frozenset = frozenset()):
         self.module_name = module_name
         self.tree = tree
+        self.multiply_defined = multiply_defined
+        # class -> names of its base classes defined in this module (helpers of a base class are found through `self`)
+        self.bases: Dict[str, List[str]] = {}
+        for st in tree.body:
+            if isinstance(st, ast.ClassDef):
+                self.bases[st.name] = [b.id for b in st.bases if isinstance(b, ast.Name)]
         known = set(known_names().get(module_name, []))
         self.helpers: Dict[Tuple[Optional[str], str], Helper] = {}
         self.counter = 0
@@ -391,7 +407,18 @@ class Inliner:
             return self.helpers.get((None, f.id))
         if isinstance(f, ast.Attribute) and isinstance(f.value, ast.Name):
             if f.value.id in ("self", "cls") and cls is not None:
-                return self.helpers.get((cls, f.attr))
+                h = self.helpers.get((cls, f.attr))
+                if h is None and f.attr not in self.multiply_defined:
+                    # a helper inherited from a base class of this module; nothing anywhere in the package redefines the name
+                    seen, todo = set(), list(self.bases.get(cls, []))
+                    while todo and h is None:
+                        b = todo.pop(0)
+                        if b in seen:
+                            continue
+                        seen.add(b)
+                        h = self.helpers.get((b, f.attr))
+                        todo.extend(self.bases.get(b, []))
+                return h
             h = self.helpers.get((f.value.id, f.attr))
             if h is not None and h.kind in ("static", "class"):
                 return h
@@ -698,6 +725,12 @@ def _split_tuple_assigns(stmts: List[ast.stmt]) -> List[ast.stmt]:
                 for t, v in zip(st.targets[0].elts, st.value.elts):
                     out.append(ast.copy_location(ast.Assign(targets=[t], value=v, lineno=st.lineno), st))
                 continue
+        # a, b = Module.CONSTANT   ->   a = Module.CONSTANT[0]; b = Module.CONSTANT[1]   (a constant named in capitals, not rebound here)
+        if isinstance(st, ast.Assign) and len(st.targets) == 1 and isinstance(st.targets[0], ast.Tuple) and all(isinstance(t, ast.Name) for t in st.targets[0].elts) \
+                and isinstance(st.value, ast.Attribute) and st.value.attr.isupper() and _plain_chain(st.value):
+            for k_, t in enumerate(st.targets[0].elts):
+                out.append(ast.copy_location(ast.Assign(targets=[t], value=ast.Subscript(value=copy.deepcopy(st.value), slice=ast.Constant(value=k_), ctx=ast.Load()), lineno=st.lineno), st))
+            continue
         out.append(st)
     return out
 
@@ -1050,6 +1083,8 @@ def _fold_stable_aliases(fn):
             while isinstance(x, ast.Attribute):
                 x = x.value
             return isinstance(x, ast.Name) and x.id not in binds and x.id not in params and x.id != "self"
+        if isinstance(e, ast.Subscript) and isinstance(e.slice, ast.Constant) and isinstance(e.slice.value, int):
+            return is_const(e.value) and isinstance(e.value, (ast.Attribute, ast.Name))
         return False
 
     folds: Dict[str, ast.AST] = {}
@@ -1102,7 +1137,412 @@ def _fold_stable_aliases(fn):
         fn.body = [R().visit(s) for s in fn.body]
 
 
-def normalise_module(module_name: str, tree: ast.Module) -> ast.Module:
+def _plain_chain(e) -> bool:
+    """name / attribute / constant-or-name subscript chain: evaluating it twice gives the same object and has no effect"""
+    while isinstance(e, (ast.Attribute, ast.Subscript)):
+        if isinstance(e, ast.Subscript) and not isinstance(e.slice, (ast.Name, ast.Constant)):
+            return False
+        e = e.value
+    return isinstance(e, ast.Name)
+
+
+def _range_len_to_enumerate(stmts):
+    """for i in range(len(X)): ... X[i] ...   ->   for i, x__eN in enumerate(X): ... x__eN ...
+    when the body neither rebinds i / X nor resizes or reorders X, writes X only at [i], and reads X[i] only before writing it.
+    Then:  for i, x in enumerate(X): a = x[0]; b = x[1]; <x unused>   ->   for i, (a, b) in enumerate(X)"""
+    counter = [0]
+    RESIZE = {"append", "insert", "pop", "remove", "clear", "extend", "sort", "reverse"}
+
+    def visit(block):
+        for st in block:
+            for field in ("body", "orelse", "finalbody"):
+                sub = getattr(st, field, None)
+                if isinstance(sub, list) and sub and isinstance(sub[0], ast.stmt):
+                    visit(sub)
+            if isinstance(st, ast.Try):
+                for h in st.handlers:
+                    visit(h.body)
+            if isinstance(st, ast.For) and not st.orelse and isinstance(st.target, ast.Name) and isinstance(st.iter, ast.Call) and isinstance(st.iter.func, ast.Name) \
+                    and st.iter.func.id == "range" and len(st.iter.args) == 1 and not st.iter.keywords:
+                a = st.iter.args[0]
+                if isinstance(a, ast.Call) and isinstance(a.func, ast.Name) and a.func.id == "len" and len(a.args) == 1 and _plain_chain(a.args[0]):
+                    _to_enumerate(st, a.args[0])
+            if isinstance(st, ast.For):
+                _unpack_into_target(st)
+
+    def _to_enumerate(lp, X):
+        i, xt = lp.target.id, ast.unparse(X)
+        base = X
+        while isinstance(base, (ast.Attribute, ast.Subscript)):
+            base = base.value
+        reads, ok, seen_store = [], True, False
+        for top in lp.body:
+            for n in ast.walk(top):
+                if isinstance(n, ast.Name) and isinstance(n.ctx, (ast.Store, ast.Del)) and n.id in (i, base.id):
+                    ok = False
+                if isinstance(n, FDEFS + (ast.Lambda, ast.ClassDef)):
+                    ok = False
+                if isinstance(n, ast.Call) and isinstance(n.func, ast.Attribute) and n.func.attr in RESIZE and ast.unparse(n.func.value) == xt:
+                    ok = False
+                if isinstance(n, ast.Subscript) and ast.unparse(n.value) == xt:
+                    if not (isinstance(n.slice, ast.Name) and n.slice.id == i):
+                        ok = False
+                    elif isinstance(n.ctx, ast.Load):
+                        if seen_store:
+                            ok = False
+                        reads.append(n)
+                    else:
+                        seen_store = True
+                elif isinstance(n, ast.Name) and n.id == base.id and isinstance(n.ctx, ast.Load):
+                    pass
+            # a store anywhere in this top-level statement orders before reads of later statements only
+            if any(isinstance(n, ast.Subscript) and ast.unparse(n.value) == xt and not isinstance(n.ctx, ast.Load) for n in ast.walk(top)):
+                seen_store = True
+        if not ok or not reads:
+            return
+        # a bare use of X other than X[i] (passing the list on, len(X)) is fine: its contents before the write are unchanged
+        counter[0] += 1
+        el = f"x__e{counter[0]}"
+        ids = {id(r) for r in reads}
+
+        class R(ast.NodeTransformer):
+            def visit_Subscript(self, n):
+                if id(n) in ids:
+                    return ast.copy_location(ast.Name(id=el, ctx=ast.Load()), n)
+                return self.generic_visit(n)
+
+        lp.body = [R().visit(b) for b in lp.body]
+        lp.target = ast.Tuple(elts=[ast.Name(id=i, ctx=ast.Store()), ast.Name(id=el, ctx=ast.Store())], ctx=ast.Store())
+        lp.iter = ast.Call(func=ast.Name(id="enumerate", ctx=ast.Load()), args=[X], keywords=[])
+
+    def _unpack_into_target(lp):
+        tg = lp.target
+        el = tg.elts[1] if isinstance(tg, ast.Tuple) and len(tg.elts) == 2 and isinstance(lp.iter, ast.Call) and isinstance(lp.iter.func, ast.Name) and lp.iter.func.id == "enumerate" else tg
+        if not (isinstance(el, ast.Name) and "__" in el.id):
+            return
+        names, k = [], 0
+        while k < len(lp.body):
+            st = lp.body[k]
+            if isinstance(st, ast.Assign) and len(st.targets) == 1 and isinstance(st.targets[0], ast.Name) and isinstance(st.value, ast.Subscript) and isinstance(st.value.value, ast.Name) \
+                    and st.value.value.id == el.id and isinstance(st.value.slice, ast.Constant) and st.value.slice.value == k:
+                names.append(st.targets[0].id)
+                k += 1
+            else:
+                break
+        if k < 2 or len(set(names)) != k:
+            return
+        if any(isinstance(n, ast.Name) and n.id == el.id for b in lp.body[k:] for n in ast.walk(b)):
+            return
+        pat = ast.Tuple(elts=[ast.Name(id=n_, ctx=ast.Store()) for n_ in names], ctx=ast.Store())
+        if el is tg:
+            lp.target = pat
+        else:
+            tg.elts[1] = pat
+        lp.body = lp.body[k:] or [ast.Pass()]
+
+    visit(stmts)
+    return stmts
+
+
+class _UnrollLiteralComprehensions(ast.NodeTransformer):
+    """[f(x) for x in (a, b)]  ->  [f(a), f(b)]   (one generator over a tuple / list display, no condition, name target);
+    the same for a generator expression that is the only argument of .extend / .join / list / tuple (consumed completely, in order)"""
+
+    def _unroll(self, comp):
+        if len(comp.generators) != 1:
+            return None
+        g = comp.generators[0]
+        if g.ifs or g.is_async or not isinstance(g.target, ast.Name) or not isinstance(g.iter, (ast.Tuple, ast.List)) or len(g.iter.elts) > 12:
+            return None
+        if any(isinstance(e, ast.Starred) for e in g.iter.elts):
+            return None
+        var = g.target.id
+        if any(isinstance(n, (ast.Lambda, ast.ListComp, ast.GeneratorExp, ast.SetComp, ast.DictComp)) for n in ast.walk(comp.elt)):
+            return None
+        out = []
+        for item in g.iter.elts:
+            out.append(_Subst({var: item}).visit(copy.deepcopy(comp.elt)))
+        return ast.List(elts=out, ctx=ast.Load())
+
+    def visit_ListComp(self, node):
+        self.generic_visit(node)
+        new = self._unroll(node)
+        return ast.copy_location(new, node) if new is not None else node
+
+    def visit_Call(self, node):
+        self.generic_visit(node)
+        if len(node.args) == 1 and not node.keywords and isinstance(node.args[0], ast.GeneratorExp):
+            f = node.func
+            if (isinstance(f, ast.Attribute) and f.attr in ("extend", "join")) or (isinstance(f, ast.Name) and f.id in ("list", "tuple")):
+                new = self._unroll(node.args[0])
+                if new is not None:
+                    node.args[0] = ast.copy_location(new, node.args[0])
+        return node
+
+
+class _EmptyJoinToConcat(ast.NodeTransformer):
+    """b''.join((a, b, c)) / ''.join([a, b])  ->  a + b + c   (empty constant separator, display of two or more elements)"""
+
+    def visit_Call(self, node):
+        self.generic_visit(node)
+        f = node.func
+        if isinstance(f, ast.Attribute) and f.attr == "join" and isinstance(f.value, ast.Constant) and f.value.value in (b"", "") and len(node.args) == 1 and not node.keywords \
+                and isinstance(node.args[0], (ast.Tuple, ast.List)) and len(node.args[0].elts) >= 2 and not any(isinstance(e, ast.Starred) for e in node.args[0].elts):
+            e = node.args[0].elts[0]
+            for nx in node.args[0].elts[1:]:
+                e = ast.BinOp(left=e, op=ast.Add(), right=nx)
+            return ast.copy_location(e, node)
+        return node
+
+
+class _FormatToFString(ast.NodeTransformer):
+    """'a {} b {}'.format(x, y)  ->  f'a {x} b {y}'   (only empty replacement fields, positional arguments, no escapes)"""
+
+    def visit_Call(self, node):
+        self.generic_visit(node)
+        f = node.func
+        if isinstance(f, ast.Attribute) and f.attr == "format" and isinstance(f.value, ast.Constant) and isinstance(f.value.value, str) and not node.keywords \
+                and not any(isinstance(a, ast.Starred) for a in node.args):
+            text = f.value.value
+            if "{{" in text or "}}" in text:
+                return node
+            pieces = text.split("{}")
+            if len(pieces) != len(node.args) + 1 or any("{" in p_ or "}" in p_ for p_ in pieces):
+                return node
+            values = []
+            for k, p_ in enumerate(pieces):
+                if p_:
+                    values.append(ast.Constant(value=p_))
+                if k < len(node.args):
+                    values.append(ast.FormattedValue(value=node.args[k], conversion=-1, format_spec=None))
+            return ast.copy_location(ast.JoinedStr(values=values), node)
+        return node
+
+
+def _fold_list_building(fn):
+    """w = [a]; w.append(b); w.extend([c, d]); w += [e]   ->   w = [a, b, c, d, e]
+    for a local bound by a list display, as long as the following statements are such additions of displays (straight line)"""
+    def scan(stmts):
+        out: List[ast.stmt] = []
+        i = 0
+        while i < len(stmts):
+            st = stmts[i]
+            for field in ("body", "orelse", "finalbody"):
+                sub = getattr(st, field, None)
+                if isinstance(sub, list) and sub and isinstance(sub[0], ast.stmt) and not isinstance(st, FDEFS + (ast.ClassDef,)):
+                    setattr(st, field, scan(sub))
+            if isinstance(st, ast.Try):
+                for hd in st.handlers:
+                    hd.body = scan(hd.body)
+            tg = st.targets[0] if isinstance(st, ast.Assign) and len(st.targets) == 1 else st.target if isinstance(st, ast.AnnAssign) else None
+            if isinstance(tg, ast.Name) and isinstance(getattr(st, "value", None), ast.List) and not any(isinstance(e, ast.Starred) for e in st.value.elts):
+                name = tg.id
+                j = i + 1
+                while j < len(stmts):
+                    nx = stmts[j]
+                    add = None
+                    if isinstance(nx, ast.Expr) and isinstance(nx.value, ast.Call) and isinstance(nx.value.func, ast.Attribute) and isinstance(nx.value.func.value, ast.Name) \
+                            and nx.value.func.value.id == name and len(nx.value.args) == 1 and not nx.value.keywords:
+                        a = nx.value.args[0]
+                        if nx.value.func.attr == "append":
+                            add = [a]
+                        elif nx.value.func.attr == "extend" and isinstance(a, (ast.List, ast.Tuple)) and not any(isinstance(e, ast.Starred) for e in a.elts):
+                            add = list(a.elts)
+                    elif isinstance(nx, ast.AugAssign) and isinstance(nx.op, ast.Add) and isinstance(nx.target, ast.Name) and nx.target.id == name and isinstance(nx.value, ast.List) \
+                            and not any(isinstance(e, ast.Starred) for e in nx.value.elts):
+                        add = list(nx.value.elts)
+                    if add is None or any(isinstance(n, ast.Name) and n.id == name for e in add for n in ast.walk(e)):
+                        break
+                    st.value.elts.extend(add)
+                    j += 1
+                out.append(st)
+                i = j
+                continue
+            out.append(st)
+            i += 1
+        return out
+
+    fn.body = scan(fn.body)
+
+
+def _private_records(tree: ast.Module, known: Set[str]) -> Dict[str, List[Tuple[str, Optional[ast.AST]]]]:
+    """module-level private classes that only name a tuple of values: `class _X(NamedTuple)` / `@dataclass class _X` whose body
+    is annotated fields (with optional defaults) and nothing else  ->  ordered [(field, default)]"""
+    out = {}
+    for st in tree.body:
+        if not (isinstance(st, ast.ClassDef) and st.name.startswith("_") and st.name not in known):
+            continue
+        nt = any((isinstance(b, ast.Name) and b.id == "NamedTuple") or (isinstance(b, ast.Attribute) and b.attr == "NamedTuple") for b in st.bases)
+        dc = any((isinstance(d, ast.Name) and d.id == "dataclass") or (isinstance(d, ast.Call) and isinstance(d.func, ast.Name) and d.func.id == "dataclass") for d in st.decorator_list)
+        if not (nt or dc) or st.keywords or (dc and st.bases):
+            continue
+        fields = []
+        ok = True
+        for b in _strip_doc(st.body):
+            if isinstance(b, ast.AnnAssign) and isinstance(b.target, ast.Name) and b.simple:
+                fields.append((b.target.id, b.value))
+            elif not isinstance(b, ast.Pass):
+                ok = False
+        if ok and fields:
+            out[st.name] = fields
+    return out
+
+
+def _fold_private_records(fn, records):
+    """x = _Rec(a=E1, b=E2) ... x.a ... p, q = x ... x[1]   ->   x__a = E1; x__b = E2 ... x__a ... p = x__a; q = x__b ... x__b
+    (x bound once in fn and used in no other way; the field expressions keep their order of evaluation)"""
+    binds: Dict[str, int] = {}
+    for n in _walk_own(fn):
+        if isinstance(n, ast.Name) and isinstance(n.ctx, (ast.Store, ast.Del)):
+            binds[n.id] = binds.get(n.id, 0) + 1
+    params = {a.arg for a in ast.walk(fn.args) if isinstance(a, ast.arg)}
+    parent = {}
+    for n in ast.walk(fn):
+        for c in ast.iter_child_nodes(n):
+            parent[id(c)] = n
+    cands = {}
+    for n in _walk_own(fn):
+        if isinstance(n, ast.Assign) and len(n.targets) == 1 and isinstance(n.targets[0], ast.Name) and isinstance(n.value, ast.Call) and isinstance(n.value.func, ast.Name) \
+                and n.value.func.id in records and binds.get(n.targets[0].id) == 1 and n.targets[0].id not in params:
+            fields = records[n.value.func.id]
+            call = n.value
+            if any(isinstance(a, ast.Starred) for a in call.args) or any(k.arg is None for k in call.keywords) or len(call.args) > len(fields):
+                continue
+            bound, order = {}, []
+            for (f, _d), a in zip(fields, call.args):
+                bound[f] = a
+                order.append(f)
+            bad = False
+            for k in call.keywords:
+                if k.arg in bound or k.arg not in [f for f, _ in fields]:
+                    bad = True
+                bound[k.arg] = k.value
+                order.append(k.arg)
+            for f, d in fields:
+                if f not in bound:
+                    if d is None:
+                        bad = True
+                    else:
+                        bound[f] = d
+                        order.append(f)
+            if not bad:
+                cands[n.targets[0].id] = (n, fields, bound, order)
+    if not cands:
+        return
+    # every other occurrence of the name must be a field read, a constant index or the value of a full tuple unpacking
+    for name in list(cands):
+        n0, fields, bound, order = cands[name]
+        fnames = [f for f, _ in fields]
+        for n in ast.walk(fn):
+            if isinstance(n, ast.Name) and n.id == name and n is not n0.targets[0]:
+                p_ = parent.get(id(n))
+                if isinstance(p_, ast.Attribute) and p_.value is n and isinstance(p_.ctx, ast.Load) and p_.attr in fnames:
+                    continue
+                if isinstance(p_, ast.Subscript) and p_.value is n and isinstance(p_.ctx, ast.Load) and isinstance(p_.slice, ast.Constant) and isinstance(p_.slice.value, int) and 0 <= p_.slice.value < len(fnames):
+                    continue
+                if isinstance(p_, ast.Assign) and p_.value is n and len(p_.targets) == 1 and isinstance(p_.targets[0], ast.Tuple) and len(p_.targets[0].elts) == len(fnames) \
+                        and all(isinstance(t, ast.Name) for t in p_.targets[0].elts):
+                    continue
+                cands.pop(name, None)
+                break
+    if not cands:
+        return
+
+    class R(ast.NodeTransformer):
+        def visit_Attribute(self, n):
+            if isinstance(n.value, ast.Name) and n.value.id in cands and isinstance(n.ctx, ast.Load):
+                return ast.copy_location(ast.Name(id=f"{n.value.id}__{n.attr}", ctx=ast.Load()), n)
+            return self.generic_visit(n)
+
+        def visit_Subscript(self, n):
+            if isinstance(n.value, ast.Name) and n.value.id in cands and isinstance(n.ctx, ast.Load) and isinstance(n.slice, ast.Constant):
+                f = cands[n.value.id][1][n.slice.value][0]
+                return ast.copy_location(ast.Name(id=f"{n.value.id}__{f}", ctx=ast.Load()), n)
+            return self.generic_visit(n)
+
+    def scan(stmts):
+        out = []
+        for st in stmts:
+            for field in ("body", "orelse", "finalbody"):
+                sub = getattr(st, field, None)
+                if isinstance(sub, list) and sub and isinstance(sub[0], ast.stmt) and not isinstance(st, FDEFS + (ast.ClassDef,)):
+                    setattr(st, field, scan(sub))
+            if isinstance(st, ast.Try):
+                for hd in st.handlers:
+                    hd.body = scan(hd.body)
+            if isinstance(st, ast.Assign) and len(st.targets) == 1 and isinstance(st.targets[0], ast.Name) and st.targets[0].id in cands and cands[st.targets[0].id][0] is st:
+                name = st.targets[0].id
+                _n0, fields, bound, order = cands[name]
+                for f in order:
+                    out.append(ast.copy_location(ast.Assign(targets=[ast.Name(id=f"{name}__{f}", ctx=ast.Store())], value=R().visit(bound[f]), lineno=st.lineno), st))
+                continue
+            if isinstance(st, ast.Assign) and isinstance(st.value, ast.Name) and st.value.id in cands and isinstance(st.targets[0], ast.Tuple):
+                name = st.value.id
+                for t, (f, _d) in zip(st.targets[0].elts, cands[name][1]):
+                    out.append(ast.copy_location(ast.Assign(targets=[t], value=ast.Name(id=f"{name}__{f}", ctx=ast.Load()), lineno=st.lineno), st))
+                continue
+            out.append(R().visit(st))
+        return out
+
+    fn.body = scan(fn.body)
+
+
+def _merge_search_result(stmts: List[ast.stmt]) -> List[ast.stmt]:
+    """for ...: [if c:] t = V; break   else: t = None      if t is not None: B (B always leaves)
+       ->  for ...: [if c:] t = V; B
+    V is a display or a non-None constant (never None), t is read nowhere after the `if`: what B does with the value found is done
+    where it is found; when nothing is found nothing happens in both forms."""
+    out: List[ast.stmt] = []
+    i = 0
+    while i < len(stmts):
+        st = stmts[i]
+        for field in ("body", "orelse", "finalbody"):
+            sub = getattr(st, field, None)
+            if isinstance(sub, list) and sub and isinstance(sub[0], ast.stmt):
+                setattr(st, field, _merge_search_result(sub))
+        if isinstance(st, ast.Try):
+            for hd in st.handlers:
+                hd.body = _merge_search_result(hd.body)
+        nxt = stmts[i + 1] if i + 1 < len(stmts) else None
+        if isinstance(st, ast.For) and len(st.orelse) == 1 and isinstance(st.orelse[0], ast.Assign) and len(st.orelse[0].targets) == 1 and isinstance(st.orelse[0].targets[0], ast.Name) \
+                and isinstance(st.orelse[0].value, ast.Constant) and st.orelse[0].value.value is None and isinstance(nxt, ast.If) and not nxt.orelse and _terminates(nxt.body):
+            t = st.orelse[0].targets[0].id
+            test = nxt.test
+            is_test = isinstance(test, ast.Compare) and len(test.ops) == 1 and isinstance(test.ops[0], ast.IsNot) and isinstance(test.left, ast.Name) and test.left.id == t \
+                and isinstance(test.comparators[0], ast.Constant) and test.comparators[0].value is None
+            later = any(isinstance(n, ast.Name) and n.id == t for s_ in stmts[i + 2:] for n in ast.walk(s_))
+            sites = []
+
+            def find(block):
+                for k, s_ in enumerate(block):
+                    if isinstance(s_, ast.Break):
+                        prev = block[k - 1] if k else None
+                        if isinstance(prev, ast.Assign) and len(prev.targets) == 1 and isinstance(prev.targets[0], ast.Name) and prev.targets[0].id == t \
+                                and (isinstance(prev.value, (ast.Tuple, ast.List, ast.Dict, ast.JoinedStr)) or (isinstance(prev.value, ast.Constant) and prev.value.value is not None)):
+                            sites.append((block, k))
+                        else:
+                            sites.append(None)
+                    elif isinstance(s_, ast.If):
+                        find(s_.body)
+                        find(s_.orelse)
+                    elif isinstance(s_, (ast.For, ast.While, ast.Try, ast.With)):
+                        if any(isinstance(n, ast.Break) for n in ast.walk(s_)):
+                            sites.append(None)
+            find(st.body)
+            other_binds = sum(1 for n in ast.walk(st) if isinstance(n, ast.Name) and n.id == t and isinstance(n.ctx, ast.Store))
+            if is_test and not later and len(sites) == 1 and sites[0] is not None and other_binds == 2:
+                block, k = sites[0]
+                block[k:k + 1] = [copy.deepcopy(x) for x in nxt.body]
+                st.orelse = []
+                out.append(st)
+                i += 2
+                continue
+        out.append(st)
+        i += 1
+    return out
+
+
+def normalise_module(module_name: str, tree: ast.Module, multiply_defined: frozenset = frozenset()) -> ast.Module:
     mt: Dict[str, ast.Tuple] = {}
     counts: Dict[str, int] = {}
     for st in tree.body:
@@ -1113,7 +1553,7 @@ def normalise_module(module_name: str, tree: ast.Module) -> ast.Module:
     mt = {k: v for k, v in mt.items() if counts.get(k) == 1}
     tree = _Isinstance(mt).visit(tree)
     _swap_negative_ifs(tree)
-    inl = Inliner(module_name, tree)
+    inl = Inliner(module_name, tree, multiply_defined)
     if inl.helpers:
         tree.body = _comprehension_to_loop(tree.body, inl, None)
         # flatten helper bodies first so that their guard clauses are in canonical form
@@ -1127,15 +1567,30 @@ def normalise_module(module_name: str, tree: ast.Module) -> ast.Module:
             if isinstance(st, FDEFS):
                 inl.inline_expressions(st, None)
         tree.body = inl.inline_statements(tree.body, None)
+        tree.body = _merge_search_result(tree.body)
         _swap_negative_ifs(tree)
+    records = _private_records(tree, set(known_names().get(module_name, []))) if known_names() else {}
+    if records:
+        for n in ast.walk(tree):
+            if isinstance(n, FDEFS):
+                _fold_private_records(n, records)
     tree.body = _split_tuple_assigns(tree.body)
-    if inl.helpers:
+    if inl.helpers or records:
         for n in ast.walk(tree):
             if isinstance(n, FDEFS):
                 _eliminate_aliases(n)
     tree.body = _flatten_block(tree.body)
+    for n in ast.walk(tree):
+        if isinstance(n, FDEFS):
+            _range_len_to_enumerate(n.body)
     tree = _GetattrLiteral().visit(tree)
     tree = _SpliceStarredTuples().visit(tree)
+    tree = _UnrollLiteralComprehensions().visit(tree)
+    tree = _FormatToFString().visit(tree)
+    tree = _EmptyJoinToConcat().visit(tree)
+    for n in ast.walk(tree):
+        if isinstance(n, FDEFS):
+            _fold_list_building(n)
     for n in ast.walk(tree):
         if isinstance(n, FDEFS):
             n.body = _loops_to_comprehensions(n.body)
